@@ -17,9 +17,9 @@ def build(tier, seed, exclude):
     g.raw(HELPERS)
     quick = tier == "quick"
     to = 110 if quick else 600
-    params = ", ".join(f"c{i}: int" for i in range(NS))
-    pre = [" and ".join(f"0 <= c{i} < 4" for i in range(NS))]
-    ch = "[" + ", ".join(f"T.real(c{i})" for i in range(NS)) + "]"
+    params = "sd: int"
+    pre = [f"0 <= sd < {4 ** NS}"]
+    ch = f"AP.S.decode(T.real(sd), {NS}, 4)"
     for shape in ("indep", "forkjoin", "wide"):
         for k in (1, 2, 3):
             if "C16-running-not-counted" in exclude and k > 1:
